@@ -773,7 +773,7 @@ def adapt_typehints(
         if val not in subtypehints and isinstance(val, str):
             subtypes = Union[tuple({type(v) for v in subtypehints if type(v) is not str})]
             val = adapt_typehints(val, subtypes, **adapt_kwargs)
-        if val not in subtypehints:
+        if not any(val == v and type(val) is type(v) for v in subtypehints):
             raise_unexpected_value(f"Expected a {typehint}", val)
 
     # Basic types
